@@ -392,6 +392,15 @@ class MainWiring(Contract):
         'ElectricField': [('radiation_field', ['grid_t1', 'rdtn_impedance', 'bucketnumbers', 0, 'oclh', 'f_rev', 'revolutionpart'], {'C10', 'C06'}),
                           ('wake_field', ['grid_t1', 'wake_impedance', 'bucketnumbers', 'spacing_bins', 'oclh', 'f_rev', 'revolutionpart', 'Ib', 'E0', 'sE', 'dt'], {'C05', 'C06', 'C10'})],
         'HDF5File': [('results_file', ['ofname', 'grid_t1', 'rdtn_field', 'wake_impedance', 'trackme', 't_sync', 'f_rev'], {'C10'})],
+        # the generated start grid: axis ranges, unit factors (natural bunch length in metres, energy spread in eV), bunch charge and
+        # current are the derived quantities of THIS run (the unit attributes of the results file are read back from this object, C10)
+        'PhaseSpace': [('start_grid.generated', ['qmin', 'qmax', 'bl', 'pmin', 'pmax', 'dE', 'oclh', 'Qb', 'Ib', 'bunches', 'zoom'], {'C10', 'C09'})],
+    }
+    MIN_ARGS = {'PhaseSpace': 6}        # copies of the start grid (grid_t2, grid_t3) are not construction sites in this sense
+    # free functions that build the start grid from a file: expected variable per argument
+    EXPECT_CALLS = {
+        'makePSFromHDF5': ('start_grid.from_results_file', ['startdistfile', 'opts', 'qmin', 'qmax', 'pmin', 'pmax', 'oclh', 'Qb', 'Ib', 'bl', 'dE'], {'C10', 'C11'}),
+        'makePSFromTXT': ('start_grid.from_text_file', ['startdistfile', 'opts', 'qmin', 'qmax', 'pmin', 'pmax', 'oclh', 'Qb', 'Ib', 'bl', 'dE'], {'C10', 'C09'}),
     }
 
     @staticmethod
@@ -422,7 +431,9 @@ class MainWiring(Contract):
                 t = n.get('type', {}).get('qualType', '')
                 for cls in self.EXPECT:
                     if t.replace('vfps::', '') == cls:
-                        sites.setdefault(cls, []).append([self._argname(a) for a in n.get('inner', []) if a.get('kind') != 'CXXDefaultArgExpr'])
+                        args_ = [self._argname(a) for a in n.get('inner', []) if a.get('kind') != 'CXXDefaultArgExpr']
+                        if len(args_) >= self.MIN_ARGS.get(cls, 0):
+                            sites.setdefault(cls, []).append(args_)
             if n.get('kind') == 'CallExpr':
                 c_ = n['inner'][0]
                 while c_.get('kind') in ('ImplicitCastExpr', 'ParenExpr'):
@@ -440,9 +451,9 @@ class MainWiring(Contract):
         def ob(label, ok, note, tags):
             obls.append(Obligation(f'main#wiring.{label}', set(tags), [], z3.BoolVal(bool(ok)), 'postcondition', None, note))
         for cls, variants in self.EXPECT.items():
-            found = sites.get(cls, [])
+            found = [f_ for f_ in sites.get(cls, []) if len(f_) >= self.MIN_ARGS.get(cls, 0)]
             if len(found) != len(variants):
-                raise ExtractionError(f'main: {len(found)} construction sites of {cls}, contract knows {len(variants)}')
+                raise ExtractionError(f'main: {len(found)} construction sites of {cls}, contract knows {len(variants)}: {found}'[:600])
             for label, want, tags in variants:
                 for w in want:
                     if isinstance(w, str) and w not in declared:
@@ -451,6 +462,19 @@ class MainWiring(Contract):
                 best = max(found, key=lambda f_: sum(1 for a_, w_ in zip(f_, want) if a_ == w_))
                 diffs = [(i_, a_, w_) for i_, (a_, w_) in enumerate(zip(best + [None] * len(want), want)) if a_ != w_]
                 ob(label, not diffs, f'{cls}({", ".join(map(str, want))}, ...): ' + ('as expected' if not diffs else 'differs at ' + '; '.join(f'argument {i_ + 1}: {a_} instead of {w_}' for i_, a_, w_ in diffs)), tags)
+        for fname, (label, want, tags) in self.EXPECT_CALLS.items():
+            found = []
+            for n in _walk(body(fn)):
+                if n.get('kind') == 'CallExpr':
+                    c_ = n['inner'][0]
+                    while c_.get('kind') in ('ImplicitCastExpr', 'ParenExpr'):
+                        c_ = c_['inner'][0]
+                    if (c_.get('referencedDecl') or {}).get('name') == fname:
+                        found.append([self._argname(a) for a in n['inner'][1:] if a.get('kind') != 'CXXDefaultArgExpr'])
+            if len(found) != 1:
+                raise ExtractionError(f'main: {len(found)} calls of {fname}, contract knows 1')
+            diffs = [(i_, a_, w_) for i_, (a_, w_) in enumerate(zip(found[0] + [None] * len(want), want)) if a_ != w_]
+            ob(label, not diffs, f'{fname}({", ".join(map(str, want))}): ' + ('as expected' if not diffs else 'differs at ' + '; '.join(f'argument {i_ + 1}: {a_} instead of {w_}' for i_, a_, w_ in diffs)), tags)
         # ---- impedance stored in the file vs frequency axis stored in the file: both come from makeImpedance(nfreqs, ...)
         calls = {}
         for n in _walk(body(fn)):
@@ -558,3 +582,28 @@ class MapDispatch(Contract):
         ex.obls = obls + [Obligation('main#dispatch.canary', set(), [], z3.BoolVal(False), 'canary', None, '')]
         info = {'unit': self.name, 'file': self.tu, 'sha': tu.sha, 'cases': 1, 'lines': [None, None], 'extract_s': 0, 'classes': len(self.EXPECT)}
         return [ex], info
+
+
+class MainUnits(MainConfig):
+    """third slice of main's set-up: the derived quantities that become unit factors of the results file (C10) and scales of the
+    kicks (C03/C05): absolute energy spread, natural bunch length, bunch charge, synchrotron period.  The formulas are the
+    documented ones over the machine parameters recorded in the file's /Info/Parameters."""
+    tags = {'C10', 'C03', 'C05'}
+    slice_targets = ['dE', 'bl', 'Qb', 't_sync', 'fs', 'f_rev']
+    slice_stop = 'spacing_ps'
+
+    def ensures(self, cx):
+        v, o = cx.v, self.o
+        sqrt = models.uf('sqrt')
+        c0 = z3.RealVal(299792458)
+        frev, Veff, H, E0 = v('f_rev'), v('V_eff'), o(cx, 'H'), o(cx, 'E_0')
+        out = [('dE', {'C10', 'C03'}, v('dE') == o(cx, 's_E') * o(cx, 'E_0')),
+               # natural bunch length [m] = c * sigma_E / (h f_rev^2 V_eff) * f_s   (the factor "Meter" of every length in the file)
+               ('bl', {'C10', 'C03', 'C05'}, v('bl') == c0 * v('dE') / H / (frev * frev) / Veff * v('fs')),
+               ('V_eff', {'C10', 'C03'}, Veff == sqrt(o(cx, 'V_RF') * o(cx, 'V_RF') - v('V0') * v('V0'))),
+               # the synchrotron frequency in use: the given one, or the one implied by alpha0 when none is given
+               ('fs', {'C10', 'C03', 'C13'}, v('fs') == If(o(cx, 'f_s') == 0, frev * sqrt(o(cx, 'alpha0') * H * Veff / (2 * PI * E0)), o(cx, 'f_s'))),
+               ('t_sync', {'C10'}, v('t_sync') == 1 / v('fs')),
+               ('Qb', {'C10'}, v('Qb') == v('Ib') / v('f_rev')),
+               ('f_rev', {'C10'}, v('f_rev') == o(cx, 'f0'))]
+        return out
